@@ -33,6 +33,26 @@ func frameSeeds(rng *rand.Rand) [][]byte {
 	}
 	mk := func(h ref.Header, p []byte) []byte { return ref.Frame{H: h, Payload: p}.Encode() }
 	m := [4]byte{1, 2, 3, 4}
+	// text made of multi-byte characters, fragmented so that boundaries fall inside characters, with empty
+	// fragments and control frames in between; valid, and invalid because the message ends inside a character
+	for i := 0; i < 8; i++ {
+		side := []ref.Side{ref.SideServer, ref.SideClient}[i%2]
+		n := []int{3, 40, 300, 3300}[i/2]
+		sh := []gen.Shape{{Op: ref.OpText, Fin: false, Len: n}, {Op: ref.OpCont, Fin: false, Len: 0}, {Op: ref.OpPing, Fin: true, Len: 5}, {Op: ref.OpCont, Fin: true, Len: 7}, {Op: ref.OpText, Fin: true, Len: 2}}
+		frames := gen.BuildUTF8(sh, side, rng)
+		st, _, _ := gen.Encode(frames)
+		out = append(out, st)
+		// the same first fragment cut inside its last character, closed by an EMPTY final fragment
+		cut := frames[0]
+		for len(cut.Payload) > 1 && cut.Payload[len(cut.Payload)-1]&0xc0 == 0x80 {
+			cut.Payload = cut.Payload[:len(cut.Payload)-1] // drop continuation bytes ...
+		}
+		if len(cut.Payload) > 1 && cut.Payload[len(cut.Payload)-1] >= 0xe0 {
+			cut.Payload = append(cut.Payload, 0x80|byte(i)) // ... and leave a lead byte with one continuation byte
+		}
+		fin := ref.Frame{H: ref.Header{Fin: true, Op: ref.OpCont, Masked: cut.H.Masked, Mask: cut.H.Mask}}
+		out = append(out, append(cut.Encode(), append(fin.Encode(), frames[4].Encode()...)...))
+	}
 	out = append(out,
 		mk(ref.Header{Fin: true, Op: ref.OpClose, Masked: true, Mask: m}, []byte{0x03, 0xe8, 'b', 'y', 'e'}),
 		mk(ref.Header{Fin: true, Op: ref.OpClose}, []byte{0x03, 0xea}),
